@@ -1330,11 +1330,14 @@ class Executor(Exec):
             iv = z3.Int(fresh_name("_dry"))
             self.bind_iteration(d, s.target, current_iterable(d), iv)
             log = d.writelog
+            fs0 = d.fs
             self.exec_block(s.body, d)
         finally:
             self.dry -= 1
             self.loop_ord = saved_ord
             self.exits = saved_exits
+        if d.fs is not fs0:
+            raise Unsupported("a loop body that writes to the file system (no loop frame for the file-system model)")
         wl = {}
         targets = {n.id for n in ast.walk(s.target) if isinstance(n, ast.Name)}
         for root, loc, structural in log:
@@ -1358,12 +1361,20 @@ class Executor(Exec):
                 else:
                     key = fl[-1]
                     whole = structural or loc == key
+            elif root[0] == "stream":
+                key, whole = root, True        # bytes appended to a stream inside the loop: its content is havoc'd
             else:
                 continue
             wl[key] = wl.get(key, False) or whole
         return wl
 
     def havoc_root(self, st, root, whole):
+        if root[0] == "stream":
+            content = self.flat.fresh(parse_type("bytes"), "lh_written")
+            st.pc += self.flat.facts(parse_type("bytes"), content)
+            st.streams[root[1]] = content
+            st.nwrites[0] += 1
+            return
         cur = self.read(st, root)
         if isinstance(cur, VRef):
             return
